@@ -11,6 +11,21 @@ NOTES = ("Contract-based deductive verification. Each check extracts the real fu
          "otherwise labelled bounded and not counted) discharge every obligation. Exit 2 = undecided (lost anchor / unsupported construct / solver limit), never an alarm.")
 
 CLAIMS = {
+    "C14": dict(
+        technique="Verus contracts on anchored fragments of the real update feed (cl-cache filter/buffering of one candidate, cache trim, delete/update parity)",
+        text="Proof for all keys/causal lengths/cache contents that a candidate is dropped exactly when a strictly newer causal length of the same key was already let through, that otherwise the pending notification and the cache carry this latest causal length, that trimming keeps the most recent 1000 keys, and that a notification says Delete iff the causal length is even. Monotonicity is conditional on the key not having been evicted from the bounded cache. 'Every changed key is notified' is not decided.",
+        note="Assumed: ordered IndexMap stand-ins; TableName opaque; candidates reach batch_candidates; pk unpacking (C09).",
+    ),
+    "C10": dict(
+        technique="Verus contracts on anchored fragments of the real ingest loop (duplicate suppression, drop-oldest eviction with loop invariant, cache insertion) and of process_multiple_changes' cleared decision",
+        text="Proof for all cache contents / changesets / actor ids that a changeset is suppressed only if the seen-cache covers all of its (actor, version, seq)s, that after a queue-full drop the cache no longer covers the dropped changeset (under its own actor id) and other entries are untouched, that insertion adds exactly the offered seqs, and that a version is booked as Cleared only for a complete and empty changeset. Liveness (applied after finitely many offers) and JoinSet/back-pressure timing are not decided.",
+        note="Assumed: IndexMap/VecDeque stand-ins; let-chains desugared; queue/cost accounting invariant as precondition; well-ordered seq ranges (an inverted range from a peer would panic rangemap at the cache insertion — noted in DESIGN).",
+    ),
+    "C03": dict(
+        technique="Verus contracts on the extracted real Changeset accessors (is_complete, is_empty, seqs, versions, last_seq); shares PartialVersion::is_complete and insert_partial (union of received seqs) with C02",
+        text="Proof for all changesets that is_complete() holds exactly when the seqs are 0..=last_seq (empty variants are complete), i.e. the 'applied iff covered' test on a single changeset; together with C02's partial-completeness and received-seq union contracts. Atomic visibility itself (one SQLite transaction + cr-sqlite merge) and the eventual-apply liveness clause are not decided.",
+        note="Change payloads opaque. The gap tests inside process_fully_buffered_changes / startup and the SQL seq-range merge are not yet under contract.",
+    ),
     "C05": dict(
         technique="Verus contracts on anchored fragments of the real sync server (process_sync pre-filter, handle_need empties decisions, partial-range clipping) + the literal SQL overlap clause translated to a spec fn and proved equivalent to interval overlap",
         text="Proof, for all version ranges and bookkeeping states, that a need is skipped iff the server holds none of the requested versions (so held versions are answered and unknown ones are met with silence), that a version is declared empty iff it is neither buffered nor a known gap, and that the seq range sent for a buffered partial is exactly (buffered row) ∩ (requested range), rows being selected by SQL iff they overlap. Safety guards only: SQL result contents and the chunk tiling across calls (see C08) are not decided here.",
@@ -64,9 +79,6 @@ NOT_APPLICABLE = {
     "C19": "behaviour is SQL (VACUUM INTO, ordinal rewrites) + file locking across processes",
     "C20": "tokio concurrency (exclusion, priority, deadlock freedom); outside Kani (no threads) and Verus (needs its own sync primitives)",
     # not yet built — removed from this list as each check lands
-    "C03": "check not built yet in this round (planned: DESIGN.md §5/C03)",
     "C07": "check not built yet in this round (planned: DESIGN.md §5/C07)",
     "C09": "check not built yet in this round (planned: DESIGN.md §5/C09)",
-    "C10": "check not built yet in this round (planned: DESIGN.md §5/C10)",
-    "C14": "check not built yet in this round (planned: DESIGN.md §5/C14)",
 }
